@@ -176,9 +176,13 @@ def handleEvents : Handler := fun inp out => do
   -- C31 on the implementation's own trace, for programs within the calling discipline
   let disc := disciplined true s0 ops
   let ok := c31Ok gTrace
-  let prop := gPanic = "" && (!disc || ok) && (specOf gTrace).dur.map (·.2) = gDur
+  -- auxiliary: the state tracker / bulker never roll back a savepoint they already released
+  let apiOnly := ops.all (fun | .raw _ => false | _ => true)
+  let svp := apiOnly && (itemTags gTrace).contains "rollback-after-savepoint-release"
+  let prop := gPanic = "" && (!disc || ok) && (specOf gTrace).dur.map (·.2) = gDur && !svp
   let propModel := !disc || c31Ok mTrace
   let sig := if gPanic ≠ "" then "C31:panic" else if disc && !ok then violationSig gTrace
+             else if svp then "C31:rollback-after-savepoint-release"
              else if (specOf gTrace).dur.map (·.2) ≠ gDur then "C31:fake-durable-differs-from-spec" else ""
   let tags := (ops.map opTag).eraseDups ++ itemTags gTrace ++
     [if disc then "disciplined" else "undisciplined", if inUse then "in-use" else "initializing"]
